@@ -268,8 +268,81 @@ def _via_fused_task():
     )
 
 
+def _matmul_task(nda, ndb):
+    """x @ y for operands of rank 1 / 2: which axes are contracted, scalar unwrapping"""
+
+    def body(it):
+        ctx = it.ctx
+        cls = it.get_class("abelian_core", "AbelianArray")
+        a, b = SymObj(cls, tag="a"), SymObj(cls, tag="b")
+        ia = tuple(SV(ctx.fresh(f"a_ix{i}", IXE), IXE) for i in range(nda))
+        ib = tuple(SV(ctx.fresh(f"b_ix{i}", IXE), IXE) for i in range(ndb))
+        a.fields["_indices"], b.fields["_indices"] = ia, ib
+        calls = []
+        nres = nda + ndb - 2
+        has_scalar = ctx.fresh("c_has_scalar_block", TBool)
+        scalar = SV(ctx.fresh("c_scalar", SCAL), SCAL)
+
+        def getitem(it_, obj, key):
+            if key != ():
+                from pyvc.core import Unsupported
+
+                raise Unsupported("unexpected key")
+            if it_.ctx.branch(has_scalar, "scalarblock"):
+                return scalar
+            raise PyRaise("KeyError", "()")
+
+        c = SymObj(None, {"ndim": nres, "blocks": SymObj(None, {"$getitem": getitem}, tag="cblocks")}, tag="c")
+
+        def blockwise(it_, args, kw):
+            calls.append((args, kw))
+            return c
+
+        it.summaries["abelian_core._tensordot_blockwise"] = blockwise
+        m, _ = cls.lookup("__matmul__")
+        for preserve in (False, True):
+            calls.clear()
+
+            def post(r, preserve=preserve):
+                out = [("exactly_one_blockwise_contraction", len(calls) == 1)]
+                if len(calls) != 1:
+                    return out
+                args, kw = calls[0]
+                full = dict(zip(("a", "b", "left_axes", "axes_a", "axes_b", "right_axes"), args))
+                full.update(kw)
+                out += [
+                    ("operands_in_order", full.get("a") is a and full.get("b") is b),
+                    ("contracts_last_axis_of_left_with_first_axis_of_right", tuple(full.get("axes_a", ())) == (nda - 1,) and tuple(full.get("axes_b", ())) == (0,)),
+                    ("free_axes_of_left_then_right_in_order", tuple(full.get("left_axes", ())) == tuple(range(nda - 1)) and tuple(full.get("right_axes", ())) == tuple(range(1, ndb))),
+                ]
+                if nres == 0 and not preserve:
+                    out.append(("scalar_result_is_the_stored_number_or_zero", z3.If(has_scalar, z3.BoolVal(isinstance(r, SV) and r.ty == SCAL and z3.eq(r.t, scalar.t)), z3.BoolVal(r == 0.0 and not isinstance(r, SymObj)))))
+                else:
+                    out.append(("array_result_returned_as_is", r is c))
+                return out
+
+            check_call(it, f"AbelianArray.__matmul__[{nda}d@{ndb}d,preserve_array={preserve}]", m, [a, b], {"preserve_array": preserve}, post=post)
+
+    return Task(f"C02.matmul.{nda}d_{ndb}d", ["C02"], ["abelian_core.AbelianArray.__matmul__"], body, assumes=["contract of _tensordot_blockwise (bounded tier C02)"])
+
+
+def _matmul_rank_task():
+    def body(it):
+        cls = it.get_class("abelian_core", "AbelianArray")
+        m, _ = cls.lookup("__matmul__")
+        for nda, ndb in ((3, 1), (1, 3), (3, 3), (2, 4)):
+            a, b = SymObj(cls, tag="a"), SymObj(cls, tag="b")
+            a.fields["_indices"] = tuple(SV(it.ctx.fresh(f"a_ix{i}", IXE), IXE) for i in range(nda))
+            b.fields["_indices"] = tuple(SV(it.ctx.fresh(f"b_ix{i}", IXE), IXE) for i in range(ndb))
+            it.summaries["abelian_core._tensordot_blockwise"] = lambda it_, args, kw: (_ for _ in ()).throw(PyRaise("AssertionError", "contraction reached"))
+            res, exc = check_call(it, f"AbelianArray.__matmul__[{nda}d@{ndb}d]", m, [a, b], raises={"ValueError": True})
+            it.ctx.oblige(f"AbelianArray.__matmul__[{nda}d@{ndb}d].rank_above_two_raises_ValueError", exc == "ValueError")
+
+    return Task("C02.matmul.rank_check", ["C02"], ["abelian_core.AbelianArray.__matmul__"], body)
+
+
 def tasks():
-    out = [_via_fused_task()]
+    out = [_via_fused_task()] + [_matmul_task(x, y) for x in (1, 2) for y in (1, 2)] + [_matmul_rank_task()]
     for ak in ("int", "pairs"):
         for mode in ("auto", "fused", "blockwise", None, "bogus"):
             out.append(_task(ak, mode))
